@@ -358,6 +358,29 @@ func (dbPT *DBPTInfo) GetDelIndexBuilderByRp(rp string) *tsi.IndexBuilder {
 	return dbPT.delIndexBuilderMap[rp]
 }
 
+// OpenDelIndexBuilder returns the index that holds the deleted series ids of rp and creates
+// it on the first DROP SERIES of the policy. The partition lock serialises the creation:
+// concurrent first drops must not create one index each over the same directory.
+func (dbPT *DBPTInfo) OpenDelIndexBuilder(rp string, client metaclient.MetaClient, engineType config.EngineType) (*tsi.IndexBuilder, error) {
+	dbPT.mu.Lock()
+	defer dbPT.mu.Unlock()
+	if delIndexBuilder := dbPT.delIndexBuilderMap[rp]; delIndexBuilder != nil {
+		return delIndexBuilder, nil
+	}
+	timeRangeInfo := &meta.ShardTimeRangeInfo{
+		ShardDuration: &meta.ShardDurationInfo{
+			DurationInfo: meta.DurationDescriptor{Duration: time.Second}},
+		OwnerIndex: meta.IndexDescriptor{IndexID: DelIndexBuilderId},
+	}
+	if _, _, _, _, err := dbPT.NewMergeSetIndex(rp, timeRangeInfo, client, engineType); err != nil {
+		return nil, err
+	}
+	if err := SetDelMergeSetForEachMergeSet(dbPT, rp); err != nil {
+		return nil, err
+	}
+	return dbPT.delIndexBuilderMap[rp], nil
+}
+
 func parseIndexDir(indexDirName string) (uint64, *meta.TimeRangeInfo, error) {
 	indexDirName = strings.TrimRight(indexDirName, "/")
 	indexDir := strings.Split(indexDirName, pathSeparator)
